@@ -50,6 +50,22 @@ func main() {
 
 func execute(scn *Scenario) *RunResult {
 	xsimrt.ResetOnceTable()
+	freshBroken = ""
+	res := executeInner(scn)
+	if freshBroken != "" && res.Viol == nil {
+		if scn.C05 != nil {
+			res.Skipped = ""
+			res.Viol = &Violation{Prop: "C05", Oracle: "fresh-receiver-not-empty", Where: "NewSlimTrie(nil-keys)",
+				Detail: "state leaks between instances: after the loads of this (or an earlier) lifecycle, " + freshBroken + " - a load into one instance changed what another instance holds"}
+		} else {
+			res.Skipped = "fresh_receiver_unusable"
+		}
+	}
+	atomic.AddInt64(&progress, 1)
+	return res
+}
+
+func executeInner(scn *Scenario) *RunResult {
 	var res *RunResult
 	switch {
 	case scn.Lane == "race":
@@ -65,7 +81,6 @@ func execute(scn *Scenario) *RunResult {
 	default:
 		panic("empty scenario")
 	}
-	atomic.AddInt64(&progress, 1)
 	return res
 }
 
